@@ -3,6 +3,7 @@
 From Coq Require Import List NArith ZArith Bool Arith Lia ZifyNat ZifyN ZifyBool.
 From LH Require Import Base.Bytes Base.Res Model.Codec Model.Lexer Proofs.LexerTotalFuel.
 Import ListNotations.
+Set Default Proof Using "Type".
 
 Notation clen s := (length (chunk s)).
 
@@ -65,8 +66,6 @@ Proof.
       destruct (_ >? _)%Z; cbn [chunk]; rewrite adv_len; lia.
 Qed.
 
-Section WithOracle.
-  Variable gbk_runes : list N -> Z.
 
   (* ---------------------------------------------------------------- comments and white space *)
   Lemma skip_comment_le s short txt s1 es :
@@ -206,6 +205,61 @@ Section WithOracle.
     - apply IH in H; [lia|discriminate].
   Qed.
 
+  Lemma lookup_kw_not_eof str k : lookup_kw str keywords = Some k -> k <> TkEOF.
+  Proof.
+    unfold keywords, kw. cbn [lookup_kw].
+    repeat (destruct (beq_bytes str _); [intros H; injection H as <-; discriminate|]).
+    discriminate.
+  Qed.
+
+
+  Section LeavesA.
+    Variable s : lst.
+    Hypothesis Hne : chunk s <> [].
+    Local Set Default Proof Using "Type Hne".
+
+    Lemma leaf_number t s' es :
+      (let '(str, s1, es) := scan_number s in (mk TkNumber str (pos s) s1, s1, es)) = (t, s', es) ->
+      tk t <> TkEOF /\ (clen s' < clen s)%nat.
+    Proof.
+      intros H. destruct (scan_number s) as [[str s1] es1] eqn:Hn.
+      apply scan_number_progress in Hn; [|exact Hne]. pinj H. split; [discriminate|exact Hn].
+    Qed.
+
+    Lemma leaf_ident t s' es :
+      (let '(str, s1) := scan_identifier s in
+       (mk (match lookup_kw str keywords with Some k => k | None => TkIdentifier end) str (pos s) s1, s1,
+        @nil lexerr)) = (t, s', es) ->
+      tk t <> TkEOF /\ (clen s' < clen s)%nat.
+    Proof.
+      intros H. destruct (scan_identifier s) as [str s1] eqn:Hn.
+      apply scan_identifier_progress in Hn; [|exact Hne]. pinj H. split; [|exact Hn].
+      cbn [tk mk]. destruct (lookup_kw str keywords) as [k|] eqn:Hk; [eapply lookup_kw_not_eof; eassumption|discriminate].
+    Qed.
+
+    Lemma leaf_long t s' es rest :
+      chunk s = 91%N :: rest ->
+      (let '(str, s1, es, ov) := scan_long_string s in
+       (mk TkString str (match ov with Some p => p | None => pos s end) s1, s1, es)) = (t, s', es) ->
+      tk t <> TkEOF /\ (clen s' < clen s)%nat.
+    Proof.
+      intros Hch H. destruct (scan_long_string s) as [[[str s1] es1] ov] eqn:Hn.
+      apply scan_long_string_lt in Hn; [|exact Hne|].
+      - pinj H. split; [discriminate|exact Hn].
+      - rewrite Hch. destruct (mlb_91 rest) as [Hm|Hm]; [left; exact Hm|right; lia].
+    Qed.
+
+    Lemma leaf_simple k n start t s' es :
+      simple k n s start = (t, s', es) -> (1 <= n)%nat -> k <> TkEOF ->
+      tk t <> TkEOF /\ (clen s' < clen s)%nat.
+    Proof.
+      intros H Hn Hk. apply simple_progress in H; [|exact Hne|exact Hn]. destruct H as [-> Hl]. split; assumption.
+    Qed.
+  End LeavesA.
+
+Section WithOracle.
+  Variable gbk_runes : list N -> Z.
+
   Lemma scan_illegal_progress s lf str s1 :
     scan_illegal gbk_runes s = (lf, str, s1) -> chunk s <> [] -> (clen s1 < clen s)%nat.
   Proof.
@@ -222,77 +276,60 @@ Section WithOracle.
     apply scan_short_f_chunk in H as (k & Hk & Hc). rewrite Hc. apply skipn_lt; [discriminate|lia].
   Qed.
 
-  Lemma lookup_kw_not_eof str k : lookup_kw str keywords = Some k -> k <> TkEOF.
-  Proof.
-    unfold keywords, kw. cbn [lookup_kw].
-    repeat (destruct (beq_bytes str _); [intros H; injection H as <-; discriminate|]).
-    discriminate.
-  Qed.
-
   (* ---------------------------------------------------------------- scan_token *)
   Lemma scan_token_eof s t s' es : scan_token gbk_runes s = (t, s', es) -> chunk s = [] -> tk t = TkEOF /\ s' = s.
   Proof. unfold scan_token. intros H Hc. rewrite Hc in H. pinj H. split; reflexivity. Qed.
 
-  Ltac leaf H Hne :=
-    lazymatch type of H with
-    | simple _ _ _ _ = _ =>
-      apply simple_progress in H; [|exact Hne|lia]; destruct H as [Hk Hl]; split; [rewrite Hk; discriminate|exact Hl]
-    | _ => idtac
-    end.
+  Section LeavesB.
+    Variable s : lst.
+    Hypothesis Hne : chunk s <> [].
+    Local Set Default Proof Using "Type Hne".
+
+    Lemma leaf_illegal t s' es :
+      (let '(lf, str, s1) := scan_illegal gbk_runes s in
+       let t := mk IKIllegal str (pos s) s1 in
+       let s2 := if lf then mkLst (chunk s1) (line s1 + 1)%Z (pos s1) (pos s1) else s1 in
+       (t, s2, [LeIllegal])) = (t, s', es) ->
+      tk t <> TkEOF /\ (clen s' < clen s)%nat.
+    Proof.
+      intros H. destruct (scan_illegal gbk_runes s) as [[lf str] s1] eqn:Hn.
+      apply scan_illegal_progress in Hn; [|exact Hne]. cbv zeta in H. pinj H. split; [discriminate|].
+      destruct lf; cbn [chunk]; exact Hn.
+    Qed.
+
+    Lemma leaf_short t s' es :
+      (let '(str, s1, es, ov) := scan_short_string gbk_runes s in
+       (mk TkString str (match ov with Some p => p | None => pos s end) s1, s1, es)) = (t, s', es) ->
+      tk t <> TkEOF /\ (clen s' < clen s)%nat.
+    Proof.
+      intros H. destruct (scan_short_string gbk_runes s) as [[[str s1] es1] ov] eqn:Hn.
+      apply scan_short_string_progress in Hn; [|exact Hne]. pinj H. split; [discriminate|exact Hn].
+    Qed.
+
+  End LeavesB.
+
+  Ltac fin H Hne :=
+    first [ solve [eapply leaf_simple in H; [exact H|exact Hne|lia|discriminate]]
+          | solve [eapply leaf_number in H; [exact H|exact Hne]]
+          | solve [eapply leaf_ident in H; [exact H|exact Hne]]
+          | solve [eapply leaf_illegal in H; [exact H|exact Hne]]
+          | solve [eapply leaf_short in H; [exact H|exact Hne]] ].
 
   Lemma scan_token_progress s t s' es :
     scan_token gbk_runes s = (t, s', es) -> chunk s <> [] -> tk t <> TkEOF /\ (clen s' < clen s)%nat.
   Proof.
     intros H Hne. unfold scan_token in H.
     destruct (chunk s) as [|c rest] eqn:Hch; [congruence|]. rewrite <- Hch in Hne. rewrite <- Hch. cbv zeta in H.
-    assert (Hnum : forall t s' es,
-               (let '(str, s1, es) := scan_number s in (mk TkNumber str (pos s) s1, s1, es)) = (t, s', es) ->
-               tk t <> TkEOF /\ (clen s' < clen s)%nat).
-    { clear H. intros t0 s0 es0 H. destruct (scan_number s) as [[str s1] es1] eqn:Hn.
-      apply scan_number_progress in Hn; [|exact Hne]. pinj H. split; [discriminate|exact Hn]. }
-    assert (Hid : forall t s' es,
-               (let '(str, s1) := scan_identifier s in
-                (mk (match lookup_kw str keywords with Some k => k | None => TkIdentifier end) str (pos s) s1, s1,
-                 @nil lexerr)) = (t, s', es) ->
-               tk t <> TkEOF /\ (clen s' < clen s)%nat).
-    { clear H. intros t0 s0 es0 H. destruct (scan_identifier s) as [str s1] eqn:Hn.
-      apply scan_identifier_progress in Hn; [|exact Hne]. pinj H. split; [|exact Hn].
-      cbn [tk mk]. destruct (lookup_kw str keywords) as [k|] eqn:Hk; [eapply lookup_kw_not_eof; eassumption|discriminate]. }
-    assert (Hill : forall t s' es,
-               (let '(lf, str, s1) := scan_illegal gbk_runes s in
-                let t := mk IKIllegal str (pos s) s1 in
-                let s2 := if lf then mkLst (chunk s1) (line s1 + 1)%Z (pos s1) (pos s1) else s1 in
-                (t, s2, [LeIllegal])) = (t, s', es) ->
-               tk t <> TkEOF /\ (clen s' < clen s)%nat).
-    { clear H. intros t0 s0 es0 H. destruct (scan_illegal gbk_runes s) as [[lf str] s1] eqn:Hn.
-      apply scan_illegal_progress in Hn; [|exact Hne]. cbv zeta in H. pinj H. split; [discriminate|].
-      destruct lf; cbn [chunk]; exact Hn. }
-    assert (Hshort : forall t s' es,
-               (let '(str, s1, es, ov) := scan_short_string gbk_runes s in
-                (mk TkString str (match ov with Some p => p | None => pos s end) s1, s1, es)) = (t, s', es) ->
-               tk t <> TkEOF /\ (clen s' < clen s)%nat).
-    { clear H. intros t0 s0 es0 H. destruct (scan_short_string gbk_runes s) as [[[str s1] es1] ov] eqn:Hn.
-      apply scan_short_string_progress in Hn; [|exact Hne]. pinj H. split; [discriminate|exact Hn]. }
     repeat match type of H with
            | context [if ?b then _ else _] => destruct b eqn:?
            end;
-      leaf H Hne;
-      try (apply Hnum in H; exact H); try (apply Hid in H; exact H); try (apply Hill in H; exact H);
-      try (apply Hshort in H; exact H).
-    - (* '.' followed by nothing / a non digit / a digit *)
-      destruct rest as [|c1 rest'].
-      + leaf H Hne.
-      + destruct (negb (is_digit c1)); [leaf H Hne|].
-        repeat match type of H with
-               | context [if ?b then _ else _] => destruct b eqn:?
-               end;
-          try (apply Hnum in H; exact H); try (apply Hid in H; exact H); try (apply Hill in H; exact H).
-    - (* long string *)
-      destruct (scan_long_string s) as [[[str s1] es1] ov] eqn:Hn.
-      apply scan_long_string_lt in Hn; [|exact Hne|].
-      + pinj H. split; [discriminate|exact Hn].
-      + rewrite Hch. match goal with Hc : (c =? 91)%N = true |- _ => apply N.eqb_eq in Hc; subst c end.
-        destruct (mlb_91 rest) as [Hm|Hm]; [left; exact Hm|right; lia].
+      try (destruct rest as [|c1 rest'];
+           [|repeat match type of H with
+                    | context [if ?b then _ else _] => destruct b eqn:?
+                    end]);
+      try fin H Hne.
+    all: match goal with Hc : (?x =? 91)%N = true |- _ => apply N.eqb_eq in Hc; subst x end.
+    all: eapply leaf_long in H; [exact H|exact Hne|exact Hch].
   Qed.
 
   (* ---------------------------------------------------------------- next_token *)
@@ -304,9 +341,10 @@ Section WithOracle.
     destruct (skip_ws prev2 prev1 s) as [[s' cms] es1] eqn:Hw. apply skip_ws_le in Hw.
     destruct (scan_token gbk_runes s') as [[t s2] es2] eqn:Ht.
     intros H; pinj H. cbn [lt].
-    destruct (chunk s') as [|c r] eqn:Hc.
+    assert (Hc : chunk s' = [] \/ chunk s' <> []) by (destruct (chunk s'); [left; reflexivity|right; discriminate]).
+    destruct Hc as [Hc|Hc].
     - apply scan_token_eof in Ht as [Hk ->]; [|exact Hc]. split; [exact Hw|]. congruence.
-    - apply scan_token_progress in Ht as [Hk Hl]; [|rewrite Hc; discriminate]. split; [lia|]. intros _. lia.
+    - apply scan_token_progress in Ht as [Hk Hl]; [|exact Hc]. split; [lia|]. intros _. lia.
   Qed.
 
   (* a token is EOF exactly when it was scanned from an exhausted chunk; then the state does not move any more *)
@@ -317,8 +355,9 @@ Section WithOracle.
     destruct (skip_ws prev2 prev1 s) as [[s' cms] es1] eqn:Hw.
     destruct (scan_token gbk_runes s') as [[t s2] es2] eqn:Ht.
     intros H; pinj H. cbn [lt]. intros Hk.
-    destruct (chunk s') as [|c r] eqn:Hc.
+    assert (Hc : chunk s' = [] \/ chunk s' <> []) by (destruct (chunk s'); [left; reflexivity|right; discriminate]).
+    destruct Hc as [Hc|Hc].
     - apply scan_token_eof in Ht as [_ ->]; assumption.
-    - apply scan_token_progress in Ht as [Hk' _]; [congruence|rewrite Hc; discriminate].
+    - apply scan_token_progress in Ht as [Hk' _]; [congruence|exact Hc].
   Qed.
 End WithOracle.
